@@ -40,6 +40,8 @@ var Shares = []Share{
 	{Name: "calleefieldaddr", Decls: "type Mid$u struct{ inner Obj }\ntype Outer$u struct{ mid *Mid$u }\n\nfunc workerF$u(g$u *Obj, done chan bool) {\n$G\tdone <- true\n}\n\nfunc leakInner$u(o *Outer$u, done chan bool) {\n\tm := o.mid\n\tgo workerF$u(&m.inner, done)\n}",
 		Setup: "out$u := &Outer$u{mid: &Mid$u{inner: *o$u}}\nleakInner$u(out$u, done$u)\no$u = &out$u.mid.inner"},
 	{Name: "selectrecv", Setup: "in$u := make(chan *Obj, 1)\noutc$u := make(chan int)\ngo func(g$u *Obj) {\n\tin$u <- g$u\n\ttime.Sleep(time.Millisecond)\n$G\tdone$u <- true\n}(o$u)\nvar n$u *Obj\nselect {\ncase outc$u <- 1:\ncase n$u = <-in$u:\n}\no$u = n$u"},
+	{Name: "producerlink", Decls: "func fill$u(g$u *Obj, done chan bool) {\n$G\tdone <- true\n}\n\nfunc producer$u(head *Obj, ready chan bool, done chan bool) {\n\tx := 1\n\tn := &Obj{p: &x, m: map[string]int{\"k\": 1}, s: make([]int, 2, 8), n: &Obj{}}\n\thead.n = n\n\tready <- true\n\ttime.Sleep(time.Millisecond)\n\tfill$u(n, done)\n}",
+		Setup: "ready$u := make(chan bool)\ngo producer$u(o$u, ready$u, done$u)\n<-ready$u\no$u = o$u.n"},
 	{Name: "closurefield", Decls: "type T$u struct{ f func() }", Setup: "t$u := &T$u{}\nt$u.f = func() {\n\tg$u := o$u\n$G\tdone$u <- true\n}\ngo t$u.f()"},
 }
 
